@@ -456,6 +456,81 @@ def check_area_obs(ctx, a, ai, spec, obs, cases, agree):
                                                                          xi0[i], yi0[i], kind), dict(jr, point=i, which=label, kind=kind))
                         continue
                     cases["bucket"].append("(%s, %s, %s, %d, %d)" % (arn, fhex(x), fhex(y), xi_[i], yi_[i]))
+    # --- the modules one after another on the SAME caller arrays; other memory layouts; the multi-process path
+    def judge(res, prefix, rp, label):
+        """one module result on the first n2 points against the exact oracle (projected coordinates of the fresh, main-stream run)"""
+        mod = res["module"]
+        n2 = spec["history"]["shape"][0] * spec["history"]["shape"][1]
+        if "error" in res:
+            ctx.add_failure("%s.exception" % prefix, "%s: %s raised %s" % (label, mod, res["error"]), rp)
+            return
+        src = {"area": "area", "grid": "grid", "gf": "gf", "bucket": "bucket", "ll2cr": "ll2cr"}[mod]
+        xs_, ys_ = obs[src]["x"], obs[src]["y"]
+        if "x" in res:      # multi-process path: its own PROJ construction (on the C-contiguous copy of the same points)
+            xs_, ys_ = res["x"], res["y"]
+        first = True
+        for i in range(n2):
+            x, y = uh(xs_[i]), uh(ys_[i])
+            if mod == "ll2cr":
+                col, row = uh(res["cols"][i]), uh(res["rows"][i])
+                kind = ll_verdict(a, x, y, col, row)
+                cell = (col, row)
+                line, ck = "(%s, %s, %s, %s, %s)" % (an, fhex(x), fhex(y), fhex(col), fhex(row)), "ll"
+            else:
+                if mod == "area":
+                    cell = None if (res["cm"][i] or res["rm"][i]) else (res["r"][i], res["c"][i])
+                    line, ck = "(%s, %s, %s, (%s, %d), (%s, %d))" % (an, fhex(x), fhex(y), b(res["cm"][i]), res["c"][i], b(res["rm"][i]), res["r"][i]), "area"
+                elif mod == "grid":
+                    cell = code_cell(res["img"][i], a.w) if res["img"][i] >= 0 else "bad"
+                    line, ck = "(%s, %s, %s, %d, %d, %d)" % (an, fhex(x), fhex(y), res["rows"][i], res["cols"][i], res["img"][i]), "grid"
+                elif mod == "gf":
+                    cell = code_cell(res["code"][i], a.w) if res["code"][i] >= 0 else "bad"
+                    line, ck = "(%s, %s, %s, %d)" % (an, fhex(x), fhex(y), res["code"][i]), "gf"
+                else:
+                    xi, yi = res["xi"][i], res["yi"][i]
+                    cell = None if (xi == -1 and yi == -1) else ((yi, xi) if xi >= 0 and yi >= 0 else "bad")
+                    line, ck = "(%s, %s, %s, %d, %d)" % (an, fhex(x), fhex(y), xi, yi), "bucket"
+                kind = "inconsistent" if cell == "bad" else verdict(a, cell, x, y, band=EPS if mod == "area" else Fr(0), tol=tol_for(a, x, y))
+                if kind == "nonfinite_attributed" and mod == "area":
+                    kind = "nan_unmasked"
+            ctx.case((prefix, ai, label, i), nontrivial=True)
+            if kind:
+                if first:
+                    first = False
+                    ctx.add_failure("%s.%s" % (prefix, kind), "%s: %s gives lon/lat (%r, %r), projected (%r, %r) on %s extent %s shape (%d, %d), the result %s: %s"
+                                    % (label, mod, uh(obs["lons"][i]), uh(obs["lats"][i]), x, y, a.crs, a.ext, a.h, a.w, cell, kind), dict(rp, point=i, kind=kind))
+                continue
+            cases[ck].append(line)
+
+    pts_all = [list(p) for p in zip(obs["lons"], obs["lats"])]
+    if "history" in obs:
+        hrp = {"area": dict(core, lonlat_all=pts_all, history=spec["history"]), "module": "history"}
+        if "error" in obs["history"]:
+            ctx.add_failure("C18.history.exception", "history run raised %s" % obs["history"]["error"], hrp)
+        else:
+            done = []
+            for k, st in enumerate(obs["history"]["steps"]):
+                mod = st["module"]
+                ctx.count("history/%s_after_%d_calls" % (mod, min(k, 3)))
+                label = "call %d (%s) after %s on the same lon/lat arrays / SwathDefinition" % (k + 1, mod, done or "nothing")
+                if st.get("mutated"):
+                    fc = st["first_changed"]
+                    ctx.add_failure("C18.%s.mutates_caller_arrays" % {"gf": "gridfilter", "area": "area_index"}.get(mod, mod),
+                                    "%s: the caller's %s array(s) were overwritten; element %d was lon/lat (%r, %r) and is now (%r, %r) [%s extent %s shape (%d, %d)]"
+                                    % (label, "/".join(st["mutated"]), fc[0], uh(fc[1]), uh(fc[3]), uh(fc[2]), uh(fc[4]), a.crs, a.ext, a.h, a.w),
+                                    dict(hrp, step=k, kind="mutates_caller_arrays"))
+                judge(st, "C18.history.%s" % {"gf": "gridfilter", "area": "area_index"}.get(mod, mod), dict(hrp, step=k), label)
+                done.append(mod)
+    if "layouts" in obs:
+        lrp = {"area": dict(core, lonlat_all=pts_all, history=spec["history"], layouts=spec["layouts"]), "module": "layouts"}
+        if "error" in obs["layouts"]:
+            ctx.add_failure("C18.layout.exception", "layout run raised %s" % obs["layouts"]["error"], lrp)
+        else:
+            for k, st in enumerate(obs["layouts"]["runs"]):
+                mod, kind, npr = st["module"], st["layout"], st["nprocs"]
+                ctx.count("layout/%s/nprocs%d" % (kind, npr))
+                judge(st, "C18.layout.%s.%s%s" % ({"gf": "gridfilter", "area": "area_index"}.get(mod, mod), kind, ".nprocs%d" % npr if npr > 1 else ""),
+                      dict(lrp, run=k), "%s-layout 2-D lon/lat arrays %s, nprocs=%d" % (kind, tuple(spec["layouts"]["shape"]), npr))
     # --- ll2cr
     m = obs["ll2cr"]
     ll_ok = True
@@ -602,6 +677,15 @@ def build_request(ctx, areas):
         n = len(xy) + len(MALFORMED)
         s["scalar"] = sorted(set(ctx.rng.sample(range(len(xy)), min(12, len(xy))) + list(range(len(xy), n))))
         s["chunks"] = ctx.rng.choice([4096, 7, 50])
+        mods = ["ll2cr", "bucket", "gf", "grid", "area"]
+        calls = ctx.rng.sample(mods, 5)
+        calls.insert(ctx.rng.randrange(0, 3), "ll2cr")                 # ll2cr early, so that most modules also run after it
+        calls.append(ctx.rng.choice(mods))
+        s["history"] = {"shape": [3, n // 3], "calls": calls}
+        if k % 3 == 1:
+            runs = [[kind, m, 1] for kind in ("F", "T", "strided", "negstride") for m in mods]
+            runs += [[kind, m, 2] for kind in ("C", "F", "T") for m in (["grid", "gf"] if a.w * a.h <= 256 else ["grid"])]
+            s["layouts"] = {"shape": [3, n // 3], "runs": runs}
         partner = next((b for b in areas[k + 1:] + areas[:k] if b.crs != a.crs), None)
         if partner is not None:
             s["partner"] = partner.spec()
@@ -621,7 +705,10 @@ def run(ctx):
                 "interior, far outside, and NaN/inf/1e30/out-of-range lon/lat; all five modules run through their public entry points on the "
                 "same lon/lat (plus projection-coordinate and scalar entry points of the area, masked/filled images, ImageContainerQuick on an "
                 "overhanging half-pixel-shifted target); utils.generate_quick_linesample_arrays + ImageContainer.get_array_from_linesample on small "
-                "sources with targets k*65536 (+- a few) pixels away in each direction and on sources of width/height 65535 / 65536; two BucketResamplers built from the same dask lon/lats with targets of different CRSs have their index arrays evaluated in ONE "
+                "sources with targets k*65536 (+- a few) pixels away in each direction and on sources of width/height 65535 / 65536; every area also gets a call history: the five modules in a PRNG order (ll2cr early and repeated) on the SAME C-contiguous float64 lon/lat "
+                "arrays / SwathDefinition, the caller's arrays compared byte for byte around every call and every result judged by the oracle; every third "
+                "area gets the same points as Fortran / transposed / strided / negative-stride 2-D arrays for all modules and C / F / T layouts with "
+                "nprocs=2 for get_linesample, get_image_from_lonlats and GridFilter; two BucketResamplers built from the same dask lon/lats with targets of different CRSs have their index arrays evaluated in ONE "
                 "dask.compute and are compared with the oracle and with stand-alone evaluation; the deprecated aliases get_xy_from_lonlat / lonlat2colrow / get_xy_from_proj_coords must return exactly "
                 "what the lookup they stand for returns.  Samples are picked by a fixed plan (one per stream/class/CRS).  A case is non-trivial when the point is not strictly interior far from a border "
                 "(edge band, border line, outside, non-finite); distinct = distinct (area, lon, lat)")
@@ -675,6 +762,16 @@ def replay(ctx, data):
     if not spec:
         return True
     a = Area(next((k for k, v in CRS.items() if v == spec["proj"]), "longlat"), [uh(e) for e in spec["extent"]], spec["w"], spec["h"], "replay")
+    if case.get("module") in ("history", "layouts"):
+        pts = spec.pop("lonlat_all")
+        spec.update({"xy": [], "lonlat": [list(p) for p in pts], "scalar": []})
+        obs = ctx.impl("c18", {"areas": [{k: v for k, v in spec.items() if not k.startswith("_")}]})["areas"][0]
+        n0 = len(ctx.failures)
+        check_area_obs(ctx, a, 0, spec, obs, {k: [] for k in CHK}, [0])
+        if data.get("key"):
+            return any(f.key == data["key"] for f in ctx.failures[n0:])
+        want = "C18.layout" if case["module"] == "layouts" else ("C18.history", "mutates_caller_arrays")
+        return any((f.key.startswith(want) if isinstance(want, str) else (f.key.startswith(want[0]) or want[1] in f.key)) for f in ctx.failures[n0:])
     if case.get("module") == "bucket_joint":
         ps = spec["partner"]
         pa = Area(next((k for k, v in CRS.items() if v == ps["proj"]), "longlat"), [uh(e) for e in ps["extent"]], ps["w"], ps["h"], "replay-partner")
